@@ -123,11 +123,14 @@ Verdict(t) ==
                             THEN {"KF-C09-1"} ELSE {})
                       ELSE IF bad[i][1] = "C09_BatchEqSeq" THEN KfBatch(X, K)
                       ELSE IF bad[i][1] \in {"C08_States", "C08_Structure", "C04_Cfi", "C08_StillEvaluates", "C08_Membership", "C08_Completes"}
-                      THEN (LET C2 == CfiK(X, [dropEnd |-> FALSE, dropInit |-> TRUE])
-                            IN  IF C2.dom /\ C08_Structure(C2) /\ C04_Cfi(C2)
-                                   /\ (C2.postOk => C08_States(C2))
-                                   /\ (\A nm \in DOMAIN C2.S : C2.S[nm].Rp.err = C2.S[nm].Re.err)
-                                THEN {"KF-C08-2"} ELSE {})
+                      THEN (LET C2 == CfiK(X, [dropEnd |-> FALSE, dropInit |-> TRUE, lateEnd |-> FALSE])
+                                C3 == CfiK(X, [dropEnd |-> FALSE, dropInit |-> FALSE, lateEnd |-> TRUE])
+                                fits(D) == /\ D.dom /\ C08_Structure(D) /\ C04_Cfi(D)
+                                           /\ (D.postOk => C08_States(D))
+                                           /\ (\A nm \in DOMAIN D.S : D.S[nm].Rp.err = D.S[nm].Re.err)
+                            IN  IF fits(C2) THEN {"KF-C08-2"}
+                                ELSE IF (\E nm \in DOMAIN C3.S : C3.S[nm].Ex # C.S[nm].Ex) /\ fits(C3) THEN {"KF-C08-3"}
+                                ELSE {})
                       ELSE KfTags(X, K, bad[i][1])]],
        exc |-> t.exc]
 
